@@ -1,6 +1,5 @@
 // the transducer a byte string denotes: one vocabulary for writer and readers (DESIGN.md section 5)
-pub struct BT { pub inp: u8, pub out: int, pub addr: nat }
-pub struct BNode { pub is_final: bool, pub fo: int, pub trans: Seq<BT> }
+//@INCLUDE inc/bnode_types.rs
 pub open spec fn dec_trans(s: Seq<u8>, l: AtLayout, i: int) -> BT {
     let d = le_value(s.subrange(l.delta_at(i), l.delta_at(i) + l.ts));
     BT { inp: s[l.input_at(i)],
